@@ -171,7 +171,9 @@ Definition strip_trailer (id : oid) (tr : dict) : dict := remove_keys (ref_keys 
 Definition delete_object (d : doc) (id : oid) : option (doc * option obj) :=
   let tr := d_trailer d in
   let m := d_objects d in
-  match act_traverse (strip id) (strip_trailer id) (trav_fuel tr m) tr m with
+  (* fuel: the number of reference occurrences left after the action, + 1 *)
+  let fuel := trav_fuel (strip_trailer id tr) (map (fun io => (fst io, strip id (snd io))) m) in
+  match act_traverse (strip id) (strip_trailer id) fuel tr m with
   | Some (tr', m', _) => Some (with_graph d tr' (remove m' id), lookup m' id)
   | None => None
   end.
